@@ -16,12 +16,15 @@ structure State where
 sharing the name 3 ("shared"); S is a four-message service; P0..P7 are single-message bystanders. -/
 def svcName : String → Option Nat
   | "A" => some 0 | "B" => some 1 | "C" => some 2 | "D" => some 3 | "E" => some 3 | "S" => some 4 | "G" => some 5
+  | "H" => some 6 | "I" => some 7 | "J" => some 8     -- H: same generic service, other parameter; I/J: names differing in `::` vs `_`
+  | "K" => some 9 | "L" => some 18                     -- K: `gen-M1-`; L: `pair<M1, M2>` (a space and a comma in the name)
   | "P0" => some 10 | "P1" => some 11 | "P2" => some 12 | "P3" => some 13
   | "P4" => some 14 | "P5" => some 15 | "P6" => some 16 | "P7" => some 17 | _ => none
 
 /-- Handler keys of a service type (hash injectivity: distinct numbers; key = 100 * name + message). -/
 def keysOfType : String → List Nat
   | "A" => [1] | "B" => [101] | "C" => [201, 202] | "D" => [301] | "E" => [302] | "S" => [401, 402, 403, 404] | "G" => [501]
+  | "H" => [601] | "I" => [701] | "J" => [801] | "K" => [901] | "L" => [1801]
   | "P0" => [1001] | "P1" => [1101] | "P2" => [1201] | "P3" => [1301]
   | "P4" => [1401] | "P5" => [1501] | "P6" => [1601] | "P7" => [1701] | _ => []
 
@@ -57,6 +60,11 @@ def step (st : State) (toks : List String) : State × String :=
     match fixed.toNat?, unhex h with
     | some fixed, some bs =>
       (st, match checkFrame fixed bs with | some _ => "ok" | none => "invalid")
+    | _, _ => (st, "bad-op")
+  | ["uri", hs, hp] =>
+    -- the request path for a service name and a message name (hex of their UTF-8 bytes; `-` = empty)
+    match unhex (if hs == "-" then "" else hs), unhex (if hp == "-" then "" else hp) with
+    | some sv, some pa => (st, "uri " ++ hexOfBytes (toUri sv pa))
     | _, _ => (st, "bad-op")
   | ["add", s, inst] =>
     match svcName s, inst.toNat? with
